@@ -1,0 +1,177 @@
+//go:build verif
+
+package p2p
+
+import (
+	"bytes"
+	"crypto/ecdsa"
+	"io"
+	"net"
+
+	"gitlab.com/aquachain/aquachain/p2p/discover"
+)
+
+// SimPeer is a protocol-speaking RLPx endpoint for the simulation harness: it
+// runs the real encryption handshake from the package's own building blocks,
+// lets the harness alter one handshake message before it is sealed, and
+// afterwards writes frames whose payload bypasses the local compression and
+// size checks. Simulation harness only.
+type SimPeer struct {
+	fd       net.Conn
+	rw       *rlpxFrameRW
+	RemoteID discover.NodeID
+}
+
+// SimAuthMsg / SimAuthResp are the handshake messages as the harness may alter them.
+type SimAuthMsg struct {
+	Signature       *[sigLen]byte
+	InitiatorPubkey *[pubLen]byte
+	Nonce           *[shaLen]byte
+	Version         *uint
+	ExtraElems      int // additional list elements appended (forward compatibility)
+}
+
+type SimAuthResp struct {
+	RandomPubkey *[pubLen]byte
+	Nonce        *[shaLen]byte
+	Version      *uint
+	ExtraElems   int
+}
+
+func simTail(n int) (out [][]byte) {
+	for i := 0; i < n; i++ {
+		out = append(out, []byte{0x80 + 3, 1, 2, byte(i)})
+	}
+	return out
+}
+
+// SimDial performs the initiator side of the encryption handshake on fd.
+func SimDial(fd net.Conn, prv *ecdsa.PrivateKey, remote discover.NodeID, mutate func(*SimAuthMsg)) (*SimPeer, error) {
+	h := &encHandshake{initiator: true, remoteID: remote}
+	authMsg, err := h.makeAuthMsg(prv)
+	if err != nil {
+		return nil, err
+	}
+	if mutate != nil {
+		m := &SimAuthMsg{Signature: &authMsg.Signature, InitiatorPubkey: &authMsg.InitiatorPubkey, Nonce: &authMsg.Nonce, Version: &authMsg.Version}
+		mutate(m)
+		for _, t := range simTail(m.ExtraElems) {
+			authMsg.Rest = append(authMsg.Rest, t)
+		}
+	}
+	authPacket, err := sealEIP8(authMsg, h)
+	if err != nil {
+		return nil, err
+	}
+	if _, err = fd.Write(authPacket); err != nil {
+		return nil, err
+	}
+	authRespMsg := new(authRespV4)
+	authRespPacket, err := readHandshakeMsg(authRespMsg, encAuthRespLen, prv, fd)
+	if err != nil {
+		return nil, err
+	}
+	if err := h.handleAuthResp(authRespMsg); err != nil {
+		return nil, err
+	}
+	sec, err := h.secrets(authPacket, authRespPacket)
+	if err != nil {
+		return nil, err
+	}
+	return &SimPeer{fd: fd, rw: newRLPXFrameRW(fd, sec), RemoteID: sec.RemoteID}, nil
+}
+
+// SimAccept performs the receiver side of the encryption handshake on fd.
+func SimAccept(fd net.Conn, prv *ecdsa.PrivateKey, mutate func(*SimAuthResp)) (*SimPeer, error) {
+	authMsg := new(authMsgV4)
+	authPacket, err := readHandshakeMsg(authMsg, encAuthMsgLen, prv, fd)
+	if err != nil {
+		return nil, err
+	}
+	h := new(encHandshake)
+	if err := h.handleAuthMsg(authMsg, prv); err != nil {
+		return nil, err
+	}
+	authRespMsg, err := h.makeAuthResp()
+	if err != nil {
+		return nil, err
+	}
+	if mutate != nil {
+		m := &SimAuthResp{RandomPubkey: &authRespMsg.RandomPubkey, Nonce: &authRespMsg.Nonce, Version: &authRespMsg.Version}
+		mutate(m)
+		for _, t := range simTail(m.ExtraElems) {
+			authRespMsg.Rest = append(authRespMsg.Rest, t)
+		}
+	}
+	var authRespPacket []byte
+	if authMsg.gotPlain {
+		authRespPacket, err = authRespMsg.sealPlain(h)
+	} else {
+		authRespPacket, err = sealEIP8(authRespMsg, h)
+	}
+	if err != nil {
+		return nil, err
+	}
+	if _, err = fd.Write(authRespPacket); err != nil {
+		return nil, err
+	}
+	sec, err := h.secrets(authPacket, authRespPacket)
+	if err != nil {
+		return nil, err
+	}
+	return &SimPeer{fd: fd, rw: newRLPXFrameRW(fd, sec), RemoteID: sec.RemoteID}, nil
+}
+
+// SimHello is the protocol handshake message as the harness may shape it.
+type SimHello struct {
+	Version    uint64
+	Name       string
+	Caps       []Cap
+	ListenPort uint64
+	ID         discover.NodeID
+}
+
+// Hello writes our protocol handshake and reads theirs; snappy is switched on
+// for reading and honest writing when they announce version 5 or later.
+func (p *SimPeer) Hello(our SimHello) (their SimHello, err error) {
+	werr := make(chan error, 1)
+	go func() {
+		werr <- Send(p.rw, handshakeMsg, &protoHandshake{Version: our.Version, Name: our.Name, Caps: our.Caps, ListenPort: our.ListenPort, ID: our.ID})
+	}()
+	hs, err := readProtocolHandshake(p.rw, nil)
+	if werr2 := <-werr; err == nil {
+		err = werr2
+	}
+	if err != nil {
+		return their, err
+	}
+	p.rw.snappy = hs.Version >= snappyProtocolVersion
+	return SimHello{Version: hs.Version, Name: hs.Name, Caps: hs.Caps, ListenPort: hs.ListenPort, ID: hs.ID}, nil
+}
+
+// WriteMsg writes an honest message (compressed when snappy is on).
+func (p *SimPeer) WriteMsg(code uint64, payload []byte) error {
+	return p.rw.WriteMsg(Msg{Code: code, Size: uint32(len(payload)), Payload: bytes.NewReader(payload)})
+}
+
+// WriteRaw writes a correctly framed and MACed message whose payload bytes go
+// onto the wire exactly as given, whatever compression was negotiated.
+func (p *SimPeer) WriteRaw(code uint64, wire []byte) error {
+	was := p.rw.snappy
+	p.rw.snappy = false
+	defer func() { p.rw.snappy = was }()
+	return p.rw.WriteMsg(Msg{Code: code, Size: uint32(len(wire)), Payload: bytes.NewReader(wire)})
+}
+
+// ReadMsg reads one message.
+func (p *SimPeer) ReadMsg() (code uint64, payload []byte, err error) {
+	msg, err := p.rw.ReadMsg()
+	if err != nil {
+		return 0, nil, err
+	}
+	b, err := io.ReadAll(msg.Payload)
+	return msg.Code, b, err
+}
+
+// Close closes the connection.
+func (p *SimPeer) Close() { p.fd.Close() }
